@@ -14,3 +14,6 @@ Definition merge_sorted (s : list chunk) : list chunk :=
   match s with [] => [] | c :: rest => merge_loop c rest end.
 
 Definition proper (c : chunk) : Prop := cstart c < cend c.
+
+(* not inverted: start <= end (an empty chunk start = end is allowed) *)
+Definition noninv (c : chunk) : Prop := cstart c <= cend c.
